@@ -1029,6 +1029,9 @@ def _range_round(ctx: Ctx, batch: Batch, sk, scenario, seed, rng, force, script)
     if scenario == "wrong-range":
         width = max(width, 2)
     b = max(a + width, 1)     # max = 0 is not a usable format: EL.create's randomness range `2 ^ (l + t) * b - 1` is negative
+    if scenario == "inside-min-nonpos":    # formats whose LOWER bound is not positive (min = 0 is the natural "at most b")
+        a = [0, -2, 0, -7][ctx.counts.get("range:inside-min-nonpos", 0) % 4]
+        b = max(a + width, 1)
     if scenario == "inside-max0":          # formats whose upper bound is not positive
         a, b = rng.choice([0, 0, -3]), 0
     bitspace = 32
@@ -1118,10 +1121,13 @@ def _range_round(ctx: Ctx, batch: Batch, sk, scenario, seed, rng, force, script)
         agg = alg_v.process_challenge_response(agg, ch, resp)
         return alg_v.certainty(b"\x01", agg), alg_v.certainty(b"\x00", agg)
 
-    if scenario in ("inside", "inside-edge", "inside-bigspace", "inside-max0", "wrong-range", "tampered"):
+    if scenario in ("inside", "inside-edge", "inside-bigspace", "inside-max0", "inside-min-nonpos", "wrong-range",
+                    "tampered"):
         value = rng.choice([a, b]) if scenario == "inside-edge" else rng.randrange(a, b + 1)
         if scenario == "inside-max0":
             value = 0
+        if scenario == "inside-min-nonpos":
+            value = rng.choice([0, b, rng.randrange(0, b + 1)])     # the API encodes values as unsigned integers
         if scenario == "wrong-range":
             value = rng.randrange(a + 1, b)          # strictly inside, so that each bound can be moved on its own
         rp["value"] = value
@@ -1172,8 +1178,10 @@ def _range_round(ctx: Ctx, batch: Batch, sk, scenario, seed, rng, force, script)
         resp = alg.create_challenge_response(sk, att, ch)
         x, y, rem = unpack_pair(resp)
         u, v, _ = unpack_pair(rem)
-        if scenario in ("inside", "inside-edge", "inside-bigspace", "inside-max0"):
+        if scenario in ("inside", "inside-edge", "inside-bigspace", "inside-max0", "inside-min-nonpos"):
             yes, no = verdict(att, ch, resp)
+            if a <= 0 and b >= 1 and (yes, no) == (1.0, 0.0):
+                ctx.count("range:min-nonpositive:honest-proof-accepted")
             if pv0.m2 < 0:
                 ctx.count("range:inside:m2-negative-skipped")   # documented randomness-side precondition
             elif (yes, no) != (1.0, 0.0):
@@ -2285,8 +2293,8 @@ def protocol_cases(ctx: Ctx, scale: float):
     scen = ["inside", "outside-cheater", "wrong-range", "inside-edge", "outside-cheater", "outside-honest",
             "outside-cheater", "wrong-range", "outside-by-one", "outside-cheater", "tampered", "outside-cheater",
             "wrong-range", "inside-bigspace", "outside-cheater", "wrong-range", "outside-cheater", "tampered",
-            "outside-cheater", "inside-bigspace", "inside-edge", "outside-honest", "inside", "inside-max0",
-            "outside-cheater", "tampered"]
+            "outside-cheater", "inside-bigspace", "inside-min-nonpos", "outside-honest", "inside", "inside-max0",
+            "outside-cheater", "inside-min-nonpos"]
     n_range = max(4, int(26 * scale))
     sk = None
     for i in range(n_range):
@@ -2398,7 +2406,7 @@ REQUIRED_BRANCHES = [
     "channel:references:true-first", "channel:references:repeated-true-then-other", "channel:references:other-first",
     "config:history:mutate-dict-after-registration", "config:history:reuse-dict-for-second-schema",
     "config:history:other-manager-edits-its-default", "config:history:independent-dicts",
-    "config:history:register-same-name-again", "config:history:register-default-name-again", "config:verified:own-proof",
+    "range:min-nonpositive:honest-proof-accepted", "config:history:register-same-name-again", "config:history:register-default-name-again", "config:verified:own-proof",
     "config:verified:outside-own-range", "session:prover-restarted-from-wallet-file",
 ]
 
